@@ -297,6 +297,8 @@ impl<'a> ListStylist<'a> {
     /// - break: `xxx, /* yyy */`, `xxx,`
     /// - flat: `xxx /* yyy */, `, `xxx, `
     pub fn print_doc(self, sty: ListStyle) -> ArenaDoc<'a> {
+        #[cfg(typstyle_verif)]
+        crate::verif::point("layout:list");
         let arena = &self.printer.arena;
 
         let delim = sty.delim;
